@@ -114,6 +114,11 @@ func LoadFindings(property string) []Finding {
 	var out []Finding
 	for _, f := range ff.Findings {
 		if f.Property == property && f.Status == "open" {
+			if len(strings.TrimSuffix(f.Class, "*")) < 3 && len(f.Witnesses) == 0 && len(f.AllOf) == 0 {
+				// an entry that names neither a class nor an input would suppress every violation of the property
+				fmt.Fprintf(os.Stderr, "known_findings.json: entry %s identifies no specific class or input\n", f.ID)
+				os.Exit(2)
+			}
 			out = append(out, f)
 		}
 	}
